@@ -258,6 +258,48 @@ package mocker
 //@   panics_only_if rejected: true
 //@   ensures_on_panic nothing_left_diverted: patch.panic_frame() && patch.table_inv() && !patch.locked()
 
+// the method path: the target is reflect's method function of the struct definition's type
+//@ func (m *baseMocker) applyByMethod
+//@   props C01 C02 C12 C13
+//@   requires receiver: m != nil && structDef != nil
+//@   requires patch_state: patch_state_ok()
+//@   assigns m.guard, m.imp, m.funcDef, textmem, perm, mapof(patch.patches), anyfield(patch.patch, guard), anyfield(patch.Guard, applied),
+//@     | mutex_held[addr(patch.patchesLock)], rw_wheld[addr(memory.memoryAccessLock)], rw_rheld[addr(memory.memoryAccessLock)], placeholder_target[m.origin], varval
+//@   ensures installed: m.guard != nil && typeof(m.guard) == typeid(*patchMockGuard) && unbox(m.guard, *patchMockGuard) != nil
+//@     | && diverted_to(unbox(m.guard, *patchMockGuard).patchGuard, rt_method_func(rt_of(typeof(structDef)), method), callback)
+//@   ensures recorded: m.imp == callback
+//@   ensures table_kept: patch.table_inv() && !patch.locked()
+//@   panics_only_if rejected: true
+//@   ensures_on_panic nothing_left_diverted_or_only_the_bookkeeping_failed: patch.table_inv() && !patch.locked()
+
+//@ func (m *MethodMocker) doApply
+//@   props C12 C01 C02
+//@   requires receiver: m != nil && m.baseMocker != nil && m.structDef != nil
+//@   requires patch_state: patch_state_ok()
+//@   assigns m.baseMocker.guard, m.baseMocker.imp, m.baseMocker.funcDef, running[m.baseMocker], textmem, perm, mapof(patch.patches), anyfield(patch.patch, guard), anyfield(patch.Guard, applied),
+//@     | mutex_held[addr(patch.patchesLock)], rw_wheld[addr(memory.memoryAccessLock)], rw_rheld[addr(memory.memoryAccessLock)], placeholder_target[m.baseMocker.origin], varval
+//@   ghost_set running[m.baseMocker] = imp
+//@   ensures target_runs_it: running[m.baseMocker] == imp
+//@   ensures installed_as_given_unless_debug_wrapped: m.baseMocker.imp == imp || logger.ConsoleLevel >= logger.DebugLevel
+//@   ensures entry_diverted_to_what_was_recorded: m.baseMocker.guard != nil && typeof(m.baseMocker.guard) == typeid(*patchMockGuard) && unbox(m.baseMocker.guard, *patchMockGuard) != nil
+//@     | && diverted_to(unbox(m.baseMocker.guard, *patchMockGuard).patchGuard, rt_method_func(rt_of(typeof(m.structDef)), m.method), m.baseMocker.imp)
+//@   ensures table_kept: patch.table_inv() && !patch.locked()
+//@   panics_only_if rejected: true
+
+//@ func (m *MethodMocker) Apply
+//@   props C12 C01
+//@   requires receiver: m != nil && m.baseMocker != nil && m.structDef != nil
+//@   requires patch_state: patch_state_ok()
+//@   assigns m.baseMocker.when, m.baseMocker.guard, m.baseMocker.imp, m.baseMocker.funcDef, running[m.baseMocker], textmem, perm, mapof(patch.patches), anyfield(patch.patch, guard), anyfield(patch.Guard, applied),
+//@     | mutex_held[addr(patch.patchesLock)], rw_wheld[addr(memory.memoryAccessLock)], rw_rheld[addr(memory.memoryAccessLock)], placeholder_target[m.baseMocker.origin], varval
+//@   ensures callback_supersedes_stubs: running[m.baseMocker] == callback
+//@   ensures later_stubs_will_be_applied: mocker_inv(m.baseMocker) || m.baseMocker.canceled
+//@   ensures entry_diverted_to_the_latest_instruction: m.baseMocker.guard != nil && typeof(m.baseMocker.guard) == typeid(*patchMockGuard) && unbox(m.baseMocker.guard, *patchMockGuard) != nil
+//@     | && diverted_to(unbox(m.baseMocker.guard, *patchMockGuard).patchGuard, rt_method_func(rt_of(typeof(m.structDef)), m.method), m.baseMocker.imp)
+//@   ensures callback_installed_as_given_unless_debug_wrapped: m.baseMocker.imp == callback || logger.ConsoleLevel >= logger.DebugLevel
+//@   ensures patch_state_kept: patch.table_inv() && !patch.locked()
+//@   panics_only_if configuration_rejected: true
+
 // the "-fm" (method value) path resolves the target by symbol name: the lookup is C10's, the rest as above
 //@ trusted func (m *baseMocker) applyByName
 //@   props C01 C02 C12
